@@ -272,6 +272,7 @@ def g2_worklist(F, R):
 NEUTRAL = {"cmp", "partial_cmp", "then_with", "then", "as_ref", "borrow", "deref", "clone", "as_str", "as_slice", "reverse", "unwrap_or", "eq", "ne"}
 
 
+@rule("C18", "C18.p.the-sort-order-is-an-order", floor=2)
 @rule("C10", "G2.ord-consistent-with-eq", floor=2)
 def g2_ord(F, R):
     """sorting, `min`/`max` and ordered maps make hash-ordered data canonical only if the order is total on distinct values: every hand-written `Ord` compares (at least) the fields its `Eq` compares, without passing them through a non-injective transformation (`to_lowercase`, `len`, ...); two distinct values that compare `Equal` keep their hash order"""
@@ -334,6 +335,37 @@ def g2_ord(F, R):
                 eq_fields = set()
         key = name
         why = exempt("G2.ord-consistent-with-eq", key)
+        # every comparison in the body relates the same field of the two operands: `self.column.cmp(&self.column)` is always Equal
+        # (the order then ignores the column: diagnostics on one line come out in title order), `self.line.cmp(&other.column)` is no order
+        params = [p_.get("name") for p_ in f["hir"]["params"]]
+
+        def side(e):
+            e = peel(e)
+            while e.get("k") in ("AddrOf", "DropTemps", "Use") or (e.get("k") == "Unary" and e.get("op") == "Deref") or (e.get("k") == "MethodCall" and e["name"] in NEUTRAL and not e["args"]):
+                e = peel(e.get("e") or e.get("a") or e.get("recv"))
+            path = []
+            while e.get("k") == "Field":
+                path.append(e["name"])
+                e = peel(e["e"])
+                while e.get("k") in ("AddrOf",) or (e.get("k") == "Unary" and e.get("op") == "Deref"):
+                    e = peel(e.get("e") or e.get("a"))
+            if e.get("k") == "Path" and e.get("res") in params:
+                return e["res"], tuple(reversed(path))
+            return None
+        crossed = None
+        for c_ in walk(body, pats=False):
+            pair = None
+            if c_.get("k") == "MethodCall" and c_["name"] in ("cmp", "partial_cmp", "eq", "ne", "lt", "le", "gt", "ge") and len(c_["args"]) == 1:
+                pair = (side(c_["recv"]), side(c_["args"][0]))
+            elif c_.get("k") == "Binary" and c_["op"] in ("Eq", "Ne", "Lt", "Le", "Gt", "Ge"):
+                pair = (side(c_["a"]), side(c_["b"]))
+            if pair and pair[0] and pair[1]:
+                (r1, f1), (r2, f2) = pair
+                if r1 == r2 or f1 != f2:
+                    crossed = (c_, f"`{r1}.{'.'.join(f1)}` with `{r2}.{'.'.join(f2)}`")
+        if crossed:
+            R.bad(f"{name}|compares-unlike-operands", f"`Ord for {name}` compares {crossed[1]}: that step of the order says nothing about the two values (a value compared with itself is always `Equal`), so values that differ only there are left in the order they arrived in - diagnostics on one line come out in discovery / title order instead of by column", loc(crossed[0]))
+            continue
         if lossy:
             fld, meth, node = lossy[0]
             R.bad(f"{name}|lossy", f"`Ord for {name}` compares `{fld}` through `{meth}()`: distinct values can compare `Equal` (e.g. labels that differ only in case), and wherever a hash-ordered collection of them is made canonical by sorting or `min()`, the tie keeps the hash order", loc(node))
